@@ -51,7 +51,68 @@ def slist_index(I, seq, x, node):
 
 
 def symbolic_all_any(I, gnode, frame, seq, is_all, node):
-    raise OutOfSubset("all/any over a symbolic sequence (no comprehension summary)")
+    """all(<body> for x in <symbolic list>) / any(...): the contract supplies, per comprehension ordinal, a closed spec
+    term `elem` (with the bound index j) for the truth of element j.  (1) On a separate sub-path the real body is
+    executed at an arbitrary element j (callee contracts applied) and must agree with the summary; (2) on the main
+    path the result is the quantified summary.  Elements may raise what the summary's `may_raise` lists."""
+    from .loops import sequence_view
+    from .contract import eval_spec, parse_expr
+    from .sv import Frame, PathEnd, SymRaise
+    key = frame.func or I.fname
+    n = I.comp_counter.get(key, 0)
+    I.comp_counter[key] = n + 1
+    con = I.contract
+    spec = None
+    if con is not None:
+        tgt = con.target
+        suffix = '' if key == tgt else (key[len(tgt) + 1:] if key.startswith(tgt + '.') else key)
+        spec = con.comps.get((suffix, n)) or (con.comps.get(n) if suffix == '' else None)
+    if spec is None:
+        raise OutOfSubset(f"all/any over a symbolic sequence: comprehension {n} of {key} has no summary in the contract")
+    gen = gnode.generators[0]
+    if gen.ifs:
+        raise OutOfSubset("filtered all/any over a symbolic sequence")
+    length, elem_at = sequence_view(I, seq, node)
+    idx_name = spec.get('index', 'j')
+
+    def summary(jterm):
+        f2 = Frame(parent=frame)
+        f2.vars[idx_name] = mk_int(jterm)
+        saved_q = getattr(I, 'in_quant', False)
+        I.in_quant = True
+        try:
+            return eval_spec(I, spec['elem'], f2, f"{key}:comp{n}:elem")
+        finally:
+            I.in_quant = saved_q
+    ch = I.path.branch(2)
+    if ch == 0:
+        # (1) the summary describes the real element expression
+        j = z3.Int(I.path.fresh_name('j!e'))
+        I.path.assume(z3.And(0 <= j, j < length))
+        f2 = Frame(parent=frame)
+        I.assign(gen.target, elem_at(j), f2)
+        try:
+            v = I.eval(gnode.elt, f2)
+        except SymRaise as e:
+            allowed = spec.get('may_raise', [])
+            if not any(I.world.is_subclass_exc(e.exc_cls, a) for a in allowed):
+                I.path.oblige(f"{key}:comp{n}:noexc:{e.exc_cls}", z3.BoolVal(False), note=f"element raised at {e.origin}")
+            raise PathEnd(f'comprehension element raised {e.exc_cls}')
+        if v.kind != 'bool':
+            I.path.oblige(f"{key}:comp{n}:elem_is_bool", z3.BoolVal(False), note=f"element expression of kind {v.kind}")
+            raise PathEnd('non-bool comprehension element')
+        I.path.oblige(f"{key}:comp{n}:elem", v.t == summary(j))
+        raise PathEnd('comprehension element checked')
+    # (2) main path
+    for exc in spec.get('may_raise', []):
+        m = z3.Bool(I.path.fresh_name(f"comp_raises_{exc}"))
+        if I.path.decide(m):
+            raise SymRaise(exc, {}, f"comprehension line {getattr(node, 'lineno', '?')}")
+    jb = z3.Int(I.path.fresh_name('j!b'))
+    body = summary(jb)
+    if is_all:
+        return mk_bool(z3.ForAll([jb], z3.Implies(z3.And(0 <= jb, jb < length), body)))
+    return mk_bool(z3.Exists([jb], z3.And(0 <= jb, jb < length, body)))
 
 
 def symbolic_sum(I, gnode, frame, seq, node):
